@@ -103,6 +103,7 @@ def own_c04(tier, seed, params):
                     out.append("op=zip form=%s form2=%s n=%d kind=pl kind2=tr fault=%s" % (fa, fb, n, ft))
         if n <= 5:
             out.extend(own_unit(n, pts, kinds=("tr",)))
+            out.extend(own_zin(n, pts))
         for ft in ["none"] + ["clone:%d" % k for k in fault_points(n, n, tier)]:
             out.append("op=clone n=%d fault=%s" % (n, ft))
             for boxed in (0, 1):
@@ -238,10 +239,23 @@ def own_unit(n, faults, kinds=("tr", "pl")):
     return out
 
 
+def own_zin(n, faults):
+    """operations whose *input* elements are zero-sized (and plain): every element still has to be visited"""
+    out = []
+    for ft in faults:
+        for fm in "ormb":
+            out.append("op=map form=%s n=%d kind=zu fault=%s" % (fm, n, ft))
+            out.append("op=fold form=%s n=%d kind=zu fault=%s" % (fm, n, ft))
+        for fa, fb in (("o", "o"), ("o", "r"), ("r", "o"), ("r", "r"), ("b", "b")):
+            out.append("op=zip form=%s form2=%s n=%d kind=zu kind2=tr fault=%s" % (fa, fb, n, ft))
+    return out
+
+
 def own_c08(tier, seed, params):
     out = []
     for n in OWN_LENS:
         out.extend(own_unit(n, ["none"]))
+        out.extend(own_zin(n, ["none"]))
         out.append("op=generate n=%d fault=none" % n)
         out.append("op=default n=%d fault=none" % n)
         for kind in ("tr", "pl"):
@@ -523,6 +537,12 @@ def heap_c15(tier, seed, params):
                     out.append("op=%s n=%d l=%d kind=%s" % (op, n, l, kind))
             for op in ("into_boxed_slice", "into_vec", "from_ga_box_slice", "from_ga_vec", "box_into_iter"):
                 out.append("op=%s n=%d kind=%s" % (op, n, kind))
+    # the box a boxed constructor returns is handed on by into_boxed_slice / into_vec as the same block: its address
+    # has to be a valid (aligned) one also when nothing was allocated (N = 0, zero-sized elements of any alignment)
+    for kind in HEAP_KINDS:
+        for n in (0, 1, 2, 3, 5, 8):
+            for op in ("boxed_generate", "default_boxed"):
+                out.append("op=%s n=%d kind=%s fault=none" % (op, n, kind))
     for op in ("big_default_boxed", "big_boxed_generate", "big_box_arr", "big_boxed_collect", "big_into_vec",
                "big_elems_boxed_generate", "big_elems_default_boxed", "big_elems16_boxed_generate", "big_elems_box_map"):
         out.append("op=%s" % op)
@@ -642,7 +662,7 @@ def cmp_(tier, seed, params):
 
 
 FILL_NS = list(range(0, 65)) + [96, 127, 128, 129, 255, 256, 257, 511, 512, 513, 1000, 1023, 1024]
-FILL_KINDS = ["u8", "u64", "b3", "p2", "slot", "nest"]
+FILL_KINDS = ["u8", "u64", "b3", "p2", "w1", "slot", "nest"]
 
 
 def fill(tier, seed, params):
@@ -706,6 +726,14 @@ def arrconst(tier, seed, params):
         for form in ("repty", "repconst", "list"):
             for box in (0, 1):
                 out.append("op=hygiene name=%s form=%s box=%d" % (nm, form, box))
+    # operands that are not `Copy`: a const item (any length, any position), a value for lengths 0 and 1
+    for form in ("repty", "repconst"):
+        for n in (0, 1, 2, 3, 5, 33):
+            for pos in ("const", "static", "local"):
+                out.append("op=noncopy operand=constitem form=%s n=%d pos=%s box=0" % (form, n, pos))
+            out.append("op=noncopy operand=constitem form=%s n=%d pos=local box=1" % (form, n))
+        for n in (0, 1):
+            out.append("op=noncopy operand=value form=%s n=%d pos=local box=0" % (form, n))
     for k in ARR_LIST_KS:
         out.append("op=constpos form=list k=%d trail=0 pos=const" % k)
     for k in (0, 1, 2, 3, 17, 64):
@@ -827,6 +855,12 @@ def types(tier, seed, params):
             for target in ("array", "iter"):
                 for trait in ("clone", "copy"):
                     out.append("op=auto trait=%s target=%s elem=%s n=%d" % (trait, target, elem, n))
+        # the same question with the length left generic (`N: ArrayLength`): the answer is the element type's alone
+        for target in ("array", "ref", "iter"):
+            for trait in ("send", "sync"):
+                out.append("op=auto trait=%s target=%s elem=%s n=9999" % (trait, target, elem))
+        for target in ("array", "iter"):
+            out.append("op=auto trait=clone target=%s elem=%s n=9999" % (target, elem))
     for api in LIFE_APIS:
         for prog in ("ok", "escape", "moved", "alias"):
             out.append("op=life api=%s prog=%s uniq=%d" % (api, prog, 1 if corpora_uniq(api) else 0))
